@@ -867,6 +867,10 @@ func (p *queryPlan) projectAndGroupBy() error {
 		}
 	})
 	// The table needs to be group reduced.
+	if p.tbl.NumRows() == 0 {
+		// Nothing to reduce. The empty result gets its bindings in Execute.
+		return nil
+	}
 	// Project only binding involved in the group operation.
 	tmpBindings := []string{}
 	mapBindings := make(map[string]bool)
